@@ -95,13 +95,30 @@ func c14R2(c *Ctx, r *Report) {
 	}
 	del := dels[0]
 	// skip flag edges: !skipObsoleteAttachmentsRemoval
+	// the 'removal disabled' flag: the boolean cell that a failed leaf scan sets to true (identified by that role, not by name)
 	var notSkipped []Edge
 	var skipCell *ssa.Alloc
+	for _, top := range append([]*ssa.Function{fn}, fn.AnonFuncs...) {
+		for _, call := range c.Calls(top, false, nameIs("db.getAttachmentIDsForLeafRevisions")) {
+			ev := errValueOf(call.(*ssa.Call))
+			pos, _ := EdgesOnValue(top, func(v ssa.Value) bool { return unwrapLoadFree(v) == ev })
+			for _, e := range pos {
+				for _, in := range e.To().Instrs {
+					if st, ok := in.(*ssa.Store); ok {
+						if k, isK := st.Val.(*ssa.Const); isK && k.Value != nil && k.Value.String() == "true" {
+							if al, isAlloc := rootAddr(st.Addr).(*ssa.Alloc); isAlloc && skipCell == nil {
+								skipCell = al
+							}
+						}
+					}
+				}
+			}
+		}
+	}
 	for _, i := range Ifs(fn) {
 		v, pos := BoolTest(i.Cond)
 		if ad, ok := loadOf(v); ok {
-			if al, ok := rootAddr(ad).(*ssa.Alloc); ok && al.Comment == "skipObsoleteAttachmentsRemoval" {
-				skipCell = al
+			if al, ok := rootAddr(ad).(*ssa.Alloc); ok && skipCell != nil && al == skipCell {
 				if pos {
 					notSkipped = append(notSkipped, Edge{i.Block(), 1})
 				} else {
